@@ -59,6 +59,22 @@ def run_case(case):
                         viol.append({"mechanism": "harness", "detail": "muted OPEN returned %r" % (o.value,)})
                 keep = rng.random() < 0.4
                 sess.sim.scripts[b"shell:k%d" % i] = [b"x", b"y", b"z"]
+                if i % 4 == 3:
+                    # an operation with a nested stream (the size query of a pull with a progress callback runs while the pull's own stream is open)
+                    import io as _io
+                    sess.sim.sync_plan.files[b"/f%d" % i] = b"content"
+                    sess.sim.sync_plan.stats[b"/f%d" % i] = (0o100644, 7, 1)
+                    o = sess.call("pull", "/f%d" % i, _io.BytesIO(), progress_callback=scen.make_callback(case["impl"], "ok", []))
+                    stats["nested_opens"] = stats.get("nested_opens", 0) + 1
+                    if not o.ok:
+                        viol.append({"mechanism": "raised:%s" % o.exc_name(), "detail": "pull with a progress callback from counter %d raised %s" % (case["start"], o.brief(120))})
+                        break
+                if i % 6 == 4:
+                    # a command that does not fit into one packet of the device's maxdata (4096): still one stream, one id
+                    long_cmd = "echo " + "a" * 5000 + "; shell:echo hi"
+                    sess.sim.scripts[b"shell:" + long_cmd.encode()] = [b"long"]
+                    o = sess.call("shell", long_cmd, decode=False)
+                    stats["long_command_opens"] = stats.get("long_command_opens", 0) + 1
                 out = sess.call("streaming_shell", "k%d" % i, decode=False, take=1) if keep else sess.call("shell", "k%d" % i, decode=False)
                 if not out.ok:
                     viol.append({"mechanism": "raised:%s" % out.exc_name(), "detail": "sequential open #%d from counter %d raised %s" % (i, case["start"], out.brief(120))})
